@@ -32,12 +32,33 @@ class _Rename(ast.NodeTransformer):
         n2.body = inner.visit(n.body)
         return n2
 
+    def visit_FunctionDef(self, n: ast.FunctionDef) -> ast.AST:
+        # a local function: its parameters and its own locals shadow the enclosing names
+        shadow = {a.arg for a in n.args.posonlyargs + n.args.args + n.args.kwonlyargs}
+        for x in ast.walk(n):
+            if isinstance(x, ast.Name) and isinstance(x.ctx, (ast.Store, ast.Del)) and not any(isinstance(g, ast.Nonlocal) and x.id in g.names for g in ast.walk(n)):
+                shadow.add(x.id)
+        inner = _Rename({k: v for k, v in self.mapping.items() if k not in shadow})
+        n2 = copy.copy(n)
+        n2.body = [inner.visit(copy.deepcopy(b)) for b in n.body]
+        if n.name in self.mapping:
+            n2.name = self.mapping[n.name]
+        return n2
+
 
 def _locals_of(fn: ast.FunctionDef) -> Set[str]:
     out = {a.arg for a in fn.args.posonlyargs + fn.args.args + fn.args.kwonlyargs}
-    for n in ast.walk(fn):
+    stack = list(ast.iter_child_nodes(fn))
+    while stack:
+        n = stack.pop()
+        if isinstance(n, (ast.FunctionDef, ast.AsyncFunctionDef)):
+            out.add(n.name)  # the local function's own names are its own
+            continue
+        if isinstance(n, ast.Lambda):
+            continue
         if isinstance(n, ast.Name) and isinstance(n.ctx, (ast.Store, ast.Del)):
             out.add(n.id)
+        stack.extend(ast.iter_child_nodes(n))
     out.discard("self")
     return out
 
